@@ -11,16 +11,25 @@ use crate::util::{hash_combine, hash_str, Rng};
 
 pub struct C13;
 
-fn shape_of(op: &Op, out: &Outcome) -> Option<&'static str> {
-    match (op, out) {
-        (Op::Create { .. }, Outcome::Err(ErrKind::AlreadyExists)) => Some("create_queue(existing)"),
-        (Op::Delete { .. }, Outcome::Err(ErrKind::MissingQueue)) => Some("delete_queue(missing)"),
-        (Op::Truncate { .. }, Outcome::Err(ErrKind::MissingQueue)) => Some("truncate(missing)"),
-        (Op::Append { .. }, Outcome::Err(ErrKind::MissingQueue)) => Some("append(missing)"),
-        (Op::Append { .. }, Outcome::Err(ErrKind::Past)) => Some("append(position-in-the-past)"),
-        (Op::Append { lens, pos: Some(_), .. }, Outcome::Appended { last: None, .. }) if !lens.is_empty() => Some("append(retry-of-last-position)"),
-        (Op::Append { lens, pos: None, .. }, Outcome::Appended { last: None, .. }) if lens.is_empty() => Some("append(empty-batch,None)"),
-        (Op::Append { lens, pos: Some(_), .. }, Outcome::Appended { last: None, .. }) if lens.is_empty() => Some("append(empty-batch,Some)"),
+/// Which rejected / no-op shape is this call, judged from its ARGUMENTS and the state of
+/// the addressed queue before the call (existence and next position, as tracked by the
+/// generator from the statement's rules) - not from what the library answered.
+fn expected_shape(op: &Op, st: &std::collections::BTreeMap<String, crate::gen::GQ>) -> Option<&'static str> {
+    match op {
+        Op::Create { q } if st.contains_key(q) => Some("create_queue(existing)"),
+        Op::Delete { q } if !st.contains_key(q) => Some("delete_queue(missing)"),
+        Op::Truncate { q, .. } if !st.contains_key(q) => Some("truncate(missing)"),
+        Op::Append { q, .. } if !st.contains_key(q) => Some("append(missing)"),
+        Op::Append { q, pos, lens, .. } => {
+            let next = st[q].next;
+            match pos {
+                Some(p) if *p + 1 == next && !lens.is_empty() => Some("append(retry-of-last-position)"),
+                Some(p) if *p + 1 < next => Some("append(position-in-the-past)"),
+                Some(_) if lens.is_empty() => Some("append(empty-batch,Some)"),
+                None if lens.is_empty() => Some("append(empty-batch,None)"),
+                _ => None,
+            }
+        }
         _ => None,
     }
 }
@@ -99,15 +108,29 @@ impl Monitor for C13 {
             };
             let disk_before = d.sut.log().resource_usage().disk_used_bytes;
             let img_before = Image::from_dir(&dir).digest();
+            let Some(shape) = expected_shape(&bad, &d.gen.st) else {
+                acc.count("generated_call_is_not_a_noop_shape");
+                d.gen.note_external(&bad);
+                let _ = d.apply(bad.clone());
+                continue;
+            };
             d.gen.note_external(&bad);
             let st = d.apply(bad.clone());
             let tail = d.apply(Op::Persist { fsync: false });
-            let Some(shape) = shape_of(&st.op, &st.outcome) else {
-                // the generator's bookkeeping and the log disagree on what is a no-op here
-                // (e.g. the call was legitimately accepted): not a C13 subject
-                acc.count("generated_shape_was_accepted_as_a_real_call");
-                continue;
+            if st.outcome.is_io_err() {
+                acc.inconclusive(format!("I/O error or panic from a live call: {:?}", st.outcome));
+                return;
+            }
+            let as_expected = match (&st.outcome, shape) {
+                (Outcome::Err(ErrKind::AlreadyExists), "create_queue(existing)") => true,
+                (Outcome::Err(ErrKind::MissingQueue), s) if s.ends_with("(missing)") => true,
+                (Outcome::Err(ErrKind::Past), "append(position-in-the-past)") => true,
+                (Outcome::Appended { last: None, .. }, s) if s.starts_with("append(retry") || s.starts_with("append(empty") => true,
+                _ => false,
             };
+            if !as_expected {
+                acc.count("noop_shape_answered_differently_(outcome_is_C05_territory)");
+            }
             acc.eval();
             acc.count("noop_or_rejected_calls_checked");
             acc.count(&format!("shape_{}", shape));
